@@ -394,8 +394,13 @@ func genC12(g GenCtx) interface{} {
 	est := 60 + 45*len(b.kinds) + 40*n
 	sc.Trigger = &Trigger{AtStep: rng.Intn(est + 1), Kind: pick(rng, "close", "close", "close3", "cancel")}
 	if g.Idx%4 == 0 {
-		// systematic part of the sweep: early positions, one by one
-		sc.Trigger.AtStep = (g.Idx / 4) % 400
+		// systematic part of the sweep: positions one by one (quick: the first
+		// 400 steps, thorough: the first 4000)
+		span := 400
+		if g.Tier == "thorough" {
+			span = 4000
+		}
+		sc.Trigger.AtStep = (g.Idx / 4) % span
 	}
 	sc.CloseAtEnd = true
 	return sc
